@@ -96,6 +96,7 @@ func (p *ProjectRunner) Run() error {
 	//zerolog.SetGlobalLevel(zerolog.PanicLevel)
 	log.Debug().Msgf("Spinning up %d processes. Order: %q", len(runOrder), nameOrder)
 	for _, proc := range runOrder {
+		verifYieldR("runner.loop")
 		newConf := proc
 		p.runProcess(&newConf)
 	}
@@ -139,17 +140,20 @@ func (p *ProjectRunner) runProcess(config *types.ProcessConfig) {
 		withIsMain(isMain),
 		withExtraArgs(extraArgs),
 	)
+	verifYieldP(process, "runproc.beforeRegister")
 	p.addRunningProcess(process)
 	p.waitGroup.Add(1)
 	go func(proc *Process) {
 		defer p.removeRunningProcess(proc)
 		defer p.waitGroup.Done()
+		verifYieldP(proc, "runproc.goroutine")
 		if err = p.waitIfNeeded(proc.procConf); err != nil {
 			log.Error().Msgf("Error: %s", err.Error())
 			log.Error().Msgf("Error: process %s won't run", proc.getName())
 			proc.wontRun()
 			p.onProcessSkipped(proc.procConf)
 		} else {
+			verifYieldP(proc, "runproc.afterWaitDeps")
 			exitCode := proc.run()
 			p.addDoneProcess(proc)
 			p.onProcessEnd(exitCode, proc.procConf)
@@ -198,6 +202,7 @@ func (p *ProjectRunner) onProcessEnd(exitCode int, procConf *types.ProcessConfig
 	if (exitCode != 0 && procConf.RestartPolicy.Restart == types.RestartPolicyExitOnFailure) ||
 		procConf.RestartPolicy.ExitOnEnd {
 		_ = p.ShutDownProject()
+		verifYieldR("exitcode.beforeStore")
 		p.exitCode = exitCode
 	}
 }
@@ -337,6 +342,7 @@ func (p *ProjectRunner) StartProcess(name string) error {
 		log.Error().Msgf("Process %s is already running", name)
 		return fmt.Errorf("process %s is already running", name)
 	}
+	verifYieldR("start.afterCheck")
 	if processConfig, ok := p.project.Processes[name]; ok {
 		p.runProcess(&processConfig)
 	} else {
@@ -394,7 +400,9 @@ func (p *ProjectRunner) RestartProcess(name string) error {
 			log.Err(err).Msgf("failed to stop process %s", name)
 			return err
 		}
+		verifYieldR("restart.afterStop")
 		time.Sleep(proc.getBackoff())
+		verifYieldR("restart.afterSleep")
 	}
 
 	if processConfig, ok := p.project.Processes[name]; ok {
@@ -537,6 +545,7 @@ func (p *ProjectRunner) shutDownAndWait(shutdownOrder []*Process) {
 }
 
 func (p *ProjectRunner) ShutDownProject() error {
+	verifYieldR("shutdown.entry")
 	p.runProcMutex.Lock()
 	defer p.runProcMutex.Unlock()
 
